@@ -13,10 +13,11 @@ import sys
 import warnings
 
 sys.path.insert(0, os.path.join(os.path.dirname(os.path.abspath(__file__)), '..'))
-from common import Check, float_lit, coqc_file, COQ
+from common import Check, float_lit, coqc_file, coq_make, COQ
 from harness import enga
 from harness import cb_trees as T
 from harness import cb_engine as E
+from props import t_C16
 
 KNOWN_F5 = 'SetOptimizer/duplicate-parameters'
 KNOWN_LATE = 'RepeatedMetric/late-attachment'
@@ -657,7 +658,14 @@ def main():
                'EveCallback values v_0 * p^(j + frac), expression trees with repeated-metric leaves anywhere (also behind short-circuiting operands, attached late or with gaps) on scripted histories with ties, monitor callbacks, shared-parameter nets. '
                'distinct = distinct (scenario, callback table, calls, histories); non-trivial = at least one epoch ran')
     ck.step_hygiene()
-    if ck.step_prove('P_C16'):
+    # regenerate coq/gen/Gen_C16.v from the source under test (fail-closed emitter); proofs/C16_gen.v proves it equal to the hand model
+    gok, ginfo = t_C16.setup_generate()
+    if not gok:
+        ck.broke('translator-refusal', f't_C16:Gen_C16:{ginfo.get("file")}:{ginfo.get("line")}', ginfo['error'])
+        coq_make(['model/Callbacks.vo'])      # the correspondence cases below still need the hand model
+    else:
+        ck.extra['generated'] = {'file': 'coq/gen/Gen_C16.v', 'classes': sorted(ginfo['results'])}
+    if gok and ck.step_prove('P_C16'):
         ok, _ = coqc_file(os.path.join(COQ, 'findings', 'F_C16_callbacks.v'), timeout=120)
         ck.notes.append('findings/F_C16_callbacks.v (refutation witnesses of the recorded findings; never gates the check) '
                         + ('compiles' if ok else 'no longer compiles'))
@@ -707,7 +715,8 @@ def main():
     ck.extra['input_distribution'] = dict(sorted(run.dist.items()))
     ck.extra['known_finding_keys'] = {'open': [KNOWN_KEY], 'fixed (replayed, must pass)': [KNOWN_F5, KNOWN_LATE, KNOWN_SC, KNOWN_BA]}
     ck.finish(
-        trusted_extra=['Flocq (Zfloor / Ztrunc) and the Coq Reals library for C16_eve_spec; Interval tactic for the in-kernel log goals',
+        trusted_extra=['tools/props/t_C16.py (syntax-directed emitter callbacks.py -> gen/Gen_C16.v; its prelude fixes the meaning of np.inf, min, `x or np.inf`, history[-1-k], OrderedSet, int())',
+                       'Flocq (Zfloor / Ztrunc) and the Coq Reals library for C16_eve_spec; Interval tactic for the in-kernel log goals',
                        'tools/harness/cb_trees.py, cb_engine.py: tree -> real object / Coq term / documented predicate; real fit() driver',
                        'modelled not verified: float64 log / division / + EPS in EveCallback (taken as real operations); IEEE comparisons of the '
                        'scripted integer-valued metric values (exact); torch optimiser step rule; tqdm_file=None path of fit()'],
